@@ -19,7 +19,9 @@ import vlib, xfer_common as xc
 CT, HT = 400, 600          # PeerConnectTimeout / PeerHandshakeTimeout of the scenarios (ms)
 BAD_IN = ["silent", "half", "garbage", "wronghash", "ownid"]
 OUT_CLS = ["good", "silent", "close", "late", "wronghash", "ownid", "refuse", "blackhole", "half"]
-TIMING = ("X03.timeout.", "X03.live.", "X03.hang")
+# the socket reports of a "check" point depend on the scripted side having noticed the close (a goroutine woken by EOF): under load
+# that can lag behind the quiescence test, so these tags are re-run in isolation too (a real leak reproduces every time)
+TIMING = ("X03.timeout.", "X03.live.", "X03.hang", "C17.conn.closed", "X03.stop.socket")
 IP_POOL = [4, 5, 16, 17, 20, 21, 64, 65, 68, 69, 80, 81, 84, 85]
 
 
